@@ -176,7 +176,19 @@ def _gen_textgrid(rng, ntiers=(1, 5), nentries=(0, 7), keywords=False, min_gap=2
         names.append(name)
         kind = "P" if (point_tiers and rng.random() < 0.35) else "I"
         n = rng.randrange(*nentries)
-        if kind == "I":
+        big = rng.random() < 0.01
+        if big:
+            n = rng.randrange(80, 160)  # a tier of realistic size
+            classes.add("big-tier")
+        if kind == "I" and big:
+            ts, cl = [k / 100 for k in sorted(rng.sample(range(20000), 2 * n + 2))], {"short-decimal"}
+            classes |= cl
+            ents = []
+            i = 0
+            while len(ents) < n and i + 1 < len(ts):
+                ents.append((ts[i], ts[i + 1], gen_label(rng, keywords, blank_labels, ws_labels)))
+                i += rng.choice((1, 1, 2))
+        elif kind == "I":
             ts, cl = gen_times(rng, 2 * n + 2, scale_class, min_gap)
             classes |= cl
             ents = []
@@ -184,6 +196,9 @@ def _gen_textgrid(rng, ntiers=(1, 5), nentries=(0, 7), keywords=False, min_gap=2
             while len(ents) < n and i + 1 < len(ts):
                 ents.append((ts[i], ts[i + 1], gen_label(rng, keywords, blank_labels, ws_labels)))
                 i += rng.choice((1, 1, 2))
+        elif big:
+            ts = [k / 100 for k in sorted(rng.sample(range(20000), n))]
+            ents = [(t, gen_label(rng, keywords, blank_labels, ws_labels)) for t in ts]
         else:
             ts, cl = gen_times(rng, n, scale_class if min_gap == 0 or scale_class != "tiny" else "normal", 0)
             if scale_class == "tiny" or rng.random() < 0.2:
